@@ -135,7 +135,11 @@ def random_op(rng, pm, kinds, bias=0.5):
 
 class Batch:
     """Collects histories, runs the model once over all of them, reports the first disagreement."""
-    def __init__(self):
+    def __init__(self, generated=False):
+        # generated=True: every `mesh …` request is put to the definitions regenerated from src/mesh.py as well
+        # (`gmesh …`, Driver/GMeshCmd.lean, harness/meshops_tie.py) and must get the same answer
+        self.generated = generated
+        self.n_generated = 0
         self.lines = []
         self.expect = []
         self.where = []  # (history index, op index)
@@ -231,14 +235,25 @@ class Batch:
         """Returns None if model and code agree everywhere, else a dict describing the first disagreement."""
         if not self.lines:
             return None
-        out = run_driver(self.lines)
-        if len(out) != len(self.lines):
-            return dict(kind='driver-output-length', got=len(out), want=len(self.lines))
+        twins, origin = [], []
+        if self.generated:
+            from .meshops_tie import generated_twins
+            twins, origin = generated_twins(self.lines)
+        out = run_driver(self.lines + twins)
+        if len(out) != len(self.lines) + len(twins):
+            return dict(kind='driver-output-length', got=len(out), want=len(self.lines) + len(twins))
         for i, (line, want, got) in enumerate(zip(self.lines, self.expect, out)):
             if canon(got) != want:
                 h, k = self.where[i]
                 return dict(kind='disagreement', history=self.histories[h], op_index=k, line=line[:300],
                             python=want[:3000], model=got[:3000])
+        for j, (line, got) in enumerate(zip(twins, out[len(self.lines):])):
+            i = origin[j]
+            if canon(got) != self.expect[i]:
+                h, k = self.where[i]
+                return dict(kind='disagreement-generated', history=self.histories[h], op_index=k, line=line[:300],
+                            python=self.expect[i][:3000], generated_model=got[:3000])
+        self.n_generated = len(twins)
         return None
 
 
